@@ -676,18 +676,34 @@ def cover(graph, adapter, targets, maxwalk=14, on_div=None):
 # ------------------------------------------------------------------------------------------------------------
 # run
 # ------------------------------------------------------------------------------------------------------------
-MC = {  # label -> (quick cfg, thorough cfg, actions that must have been taken)
-    "all": ("RetainState_mc.cfg", "RetainState_mc_thorough.cfg",
-            ("Enter", "Exit", "Assign", "AssignRO", "SetCache", "SetGrid", "Copy", "MakeReadOnly")),
-    "params": ("RetainState_mcP.cfg", "RetainState_mcP_thorough.cfg", ("Enter", "Exit", "Assign")),
-    "grid": ("RetainState_mcG.cfg", "RetainState_mcG_thorough.cfg", ("Enter", "Exit", "SetGrid", "SetCache")),
-    "copy": ("RetainState_mcC.cfg", "RetainState_mcC_thorough.cfg", ("Assign", "AssignRO", "Copy", "MakeReadOnly")),
+P_ACTS = ("Enter", "Exit", "Assign")
+# exhaustive instances: label -> (cfg, actions that must have been taken)
+MC_QUICK = {
+    "all": ("RetainState_mc.cfg", ("Enter", "Exit", "Assign", "AssignRO", "SetCache", "SetGrid", "Copy", "MakeReadOnly")),
+    "params": ("RetainState_mcP.cfg", P_ACTS),
+    "grid": ("RetainState_mcG.cfg", ("Enter", "Exit", "SetGrid", "SetCache")),
+    "copy": ("RetainState_mcC.cfg", ("Assign", "AssignRO", "Copy", "MakeReadOnly")),
 }
-EMIT = {
-    "params": ("RetainState_emitP.cfg", "RetainState_emitP_thorough.cfg"),
-    "grid": ("RetainState_emitG.cfg", "RetainState_emitG_thorough.cfg"),
-    "copy": ("RetainState_emitC.cfg", "RetainState_emitC_thorough.cfg"),
+MC_THOROUGH = {
+    "all": ("RetainState_mc_thorough.cfg", MC_QUICK["all"][1]),
+    "params": ("RetainState_mcP_thorough.cfg", P_ACTS),
+    "params-deep": ("RetainState_mcP2_thorough.cfg", P_ACTS),
+    "grid": ("RetainState_mcG_thorough.cfg", MC_QUICK["grid"][1]),
+    "copy": ("RetainState_mcC_thorough.cfg", MC_QUICK["copy"][1]),
 }
+# emission instances: label -> (cfg, every edge under every profile?)   (otherwise the edges are dealt out to the profiles)
+EMIT_QUICK = {
+    "copy": ("RetainState_emitC.cfg", False),
+    "grid": ("RetainState_emitG.cfg", False),
+    "params": ("RetainState_emitP.cfg", False),
+}
+EMIT_THOROUGH = {
+    "copy": ("RetainState_emitC_thorough.cfg", True),
+    "grid": ("RetainState_emitG_thorough.cfg", False),
+    "params-shared": ("RetainState_emitP2_thorough.cfg", True),
+    "params": ("RetainState_emitP_thorough.cfg", True),
+}
+EMIT = {k: (v[0],) for k, v in EMIT_QUICK.items()}  # (selftest uses the quick graphs)
 PROFILES = ("scalar-array", "str-none-dict", "reshape")
 
 
@@ -732,19 +748,20 @@ def report_div(rep, d, adapter, direction):
 
 def run(rep, tier, seed):
     thorough = tier == "thorough"
-    ix = 1 if thorough else 0
     timing = rep.extra.setdefault("timing_s", {})
     t0 = time.time()
     sany = _Bg(lambda: tlc.sany("RetainState_mc", MODDIR))
     # 2. spec -> code: the emission runs start first (the replay waits for them) ------------------------------
-    em = {k: _Bg(lambda c=v[ix]: tlc.run("RetainState_mc", c, MODDIR, workers=1, coverage=False, timeout=3000))
-          for k, v in EMIT.items()}
+    MC = MC_THOROUGH if thorough else MC_QUICK
+    EM = EMIT_THOROUGH if thorough else EMIT_QUICK
+    em = {k: _Bg(lambda c=v[0]: tlc.run("RetainState_mc", c, MODDIR, workers=1, coverage=False, timeout=3000, heap="6g"))
+          for k, v in EM.items()}
 
     # 1. exhaustive model checking: one instance after the other, in the background -------------------------
-    nw = max(2, common.NCPU // 3)
+    nw = common.NCPU if thorough else max(2, common.NCPU // 3)
 
     def chain():
-        return {k: tlc.run("RetainState_mc", v[ix], MODDIR, workers=nw, want_prints=False, timeout=6000)
+        return {k: tlc.run("RetainState_mc", v[0], MODDIR, workers=nw, want_prints=False, timeout=6000)
                 for k, v in MC.items()}
 
     mc = _Bg(chain)
@@ -755,20 +772,21 @@ def run(rep, tier, seed):
     adapters = {p: MiniAdapter(p) for p in PROFILES}
     timing["setup"] = round(time.time() - t0, 1)
     keys_seen = {}
-    for focus in ("copy", "grid", "params"):
+    for focus in EM:
         t1 = time.time()
         res = em[focus].get()
+        em[focus] = None
         timing["wait-emit-" + focus] = round(time.time() - t1, 1)
         t1 = time.time()
-        rep.add_tlc("edges:" + EMIT[focus][ix], res)
+        rep.add_tlc("edges:" + EM[focus][0], res)
         g = EdgeGraph(res.prints)
+        res.prints, res.out = [], ""
         ne = len(g.edges)
         tot = {"walks": 0, "steps": 0, "covered": 0, "nontrivial": 0, "blocked": 0, "divergent": 0}
         for pi, prof in enumerate(PROFILES):
-            if thorough or focus == "params":
-                targets = range(ne) if thorough else [i for i in range(ne) if i % len(PROFILES) == pi]
+            if EM[focus][1]:
+                targets = range(ne)
             else:
-                # grid / copy behaviour does not depend on the value kinds: one third of the edges per profile
                 targets = [i for i in range(ne) if i % len(PROFILES) == pi]
             st, divs = cover(g, adapters[prof], targets)
             for k in tot:
@@ -806,13 +824,13 @@ def run(rep, tier, seed):
     t1 = time.time()
     sany.get()
     for k, res in mc.get().items():
-        rep.add_tlc("exhaustive:%s:%s" % (k, MC[k][ix]), res)
+        rep.add_tlc("exhaustive:%s:%s" % (k, MC[k][0]), res)
         if res.violation:
             rep.violation("tlc:" + res.violation["name"], "TLC: %s violated in the specification (%s)" % (
-                res.violation["name"], MC[k][ix]), {"direction": "tlc", "trace": res.violation["trace"][:20000]})
-        never = [a for a in MC[k][2] if res.coverage.get(a, (0, 0))[1] == 0]
+                res.violation["name"], MC[k][0]), {"direction": "tlc", "trace": res.violation["trace"][:20000]})
+        never = [a for a in MC[k][1] if res.coverage.get(a, (0, 0))[1] == 0]
         if never:
-            raise tlc.MachineryError("vacuous: actions never taken in %s: %s" % (MC[k][ix], never))
+            raise tlc.MachineryError("vacuous: actions never taken in %s: %s" % (MC[k][0], never))
     timing["wait-mc"] = round(time.time() - t1, 1)
     rep.assume(
         "assignment = a call of the parameter setter or of a public mutator (setNumberDensity, temperatureInC, "
